@@ -4,6 +4,8 @@ import ScyllaVerif.Model.Speculative
 
 * `class <ok|Error>`                             — `canBeIgnored` on one value of the error universe
   (`Name` or `Name(payload,…)`): `ignorable` / `definitive`;
+* `lbplan <shards> <ident> <node> <shard>`         — `lbRaw` over the single-target policy; the observed `Plan` must
+  be `resolveAll` of it for some random shards (checker);
 * `spec <max> <interval> <delay>:<outcome> …`   — `execute` over scripted fibers in virtual time;
 * `gate <idem>[/<timeout>] <none|max:interval> <conn>:<delay>:<outcome>:<decision> …` — the gate (+ optional
   client-side request timeout) + shared plan + fibers that walk the plan (`execution.rs:519-644` with the harness's scripted retry policy).
@@ -394,6 +396,45 @@ def parsePolicy (s : String) : Option (Option (Nat × Nat)) :=
       | _, _ => none
     | _ => none
 
+/-! ### `lbplan`: `Plan` over the single-target policy -/
+
+def rawStr (t : RawTarget) : String :=
+  match t.2 with
+  | some s => s!"{t.1}:{s}"
+  | none => s!"{t.1}:-"
+
+def parsePlanEntry (s : String) : Option (Nat × Nat) :=
+  match s.splitOn ":" with
+  | [n, sh] => match n.toNat?, sh.toNat? with
+    | some n, some sh => some (n, sh)
+    | _, _ => none
+  | _ => none
+
+/-- the observed plan is `resolveAll raw ρ` for some random shards `ρ` below the nodes' shard counts -/
+def planMatches (shards : List Nat) : List RawTarget → List (Nat × Nat) → Bool
+  | [], [] => true
+  | (n, some s) :: raw, (m, sh) :: obs => n == m && s == sh && planMatches shards raw obs
+  | (n, none) :: raw, (m, sh) :: obs => n == m && sh < max 1 (shards.getD n 0) && planMatches shards raw obs
+  | _, _ => false
+
+def runLbPlan (shards : List Nat) (ident : String) (target : Nat) (shard : Option Nat) (impl : String) : String :=
+  let found := ident == "host" || ident == "node" || ident == "addr"
+  let pick := singleTargetPick found target shard
+  let fb := singleTargetFallback
+  let raw := lbRaw pick fb
+  let head := s!"pick={(pick.map rawStr).getD "none"} fb={if fb.isEmpty then "-" else ",".intercalate (fb.map rawStr)} plan="
+  let implPlan := match (words impl).getLast? with
+    | some w => if w.startsWith "plan=" then some (w.drop 5).toString else none
+    | none => none
+  let obs : Option (List (Nat × Nat)) := match implPlan with
+    | some "-" => some []
+    | some p => (p.splitOn ",").mapM parsePlanEntry
+    | none => none
+  match implPlan, obs with
+  | some p, some obs => if planMatches shards raw obs then head ++ p
+                        else head ++ "REJECT expected " ++ (if raw.isEmpty then "-" else ",".intercalate (raw.map rawStr))
+  | _, _ => head ++ "REJECT unparsable"
+
 def run (case impl : String) : String :=
   match words case with
   | ["class", o] =>
@@ -402,6 +443,14 @@ def run (case impl : String) : String :=
     else match parseReqErr o with
       | some e => cls (canBeIgnored (.err e : Res Pay))
       | none => "bad-case"
+  | ["lbplan", shards, ident, target, shard] =>
+    let sh : Option (Option Nat) := if shard == "-" then some none else shard.toNat?.map some
+    match (shards.splitOn ",").mapM String.toNat?, target.toNat?, sh with
+    | some shards, some target, some sh =>
+      if shards.isEmpty || shards.length > 8 || target ≥ shards.length
+          || !(["host", "node", "addr", "nohost", "noaddr"].contains ident) then "bad-case"
+      else runLbPlan shards ident target sh impl
+    | _, _, _ => "bad-case"
   | "spec" :: m :: i :: toks =>
     match m.toNat?, i.toNat?, parseSpecToks 0 toks with
     | some m, some i, some script =>
